@@ -126,22 +126,31 @@ def check_mass_naming(ctx: Check, tree: Tree) -> None:
     cm = tree.func(f"{LOR}::compute_invariant_masses")
     inl = Inliner(cm.node)
     stores = [n for n in walk_function(cm.node) if isinstance(n, ast.Assign) and isinstance(n.targets[0], ast.Subscript)]
-    if len(stores) != 1:
-        raise AnalysisError("compute_invariant_masses: expected one store")
-    st = stores[0]
+    comps = [n for n in walk_function(cm.node) if isinstance(n, ast.DictComp)]
+    if len(stores) + len(comps) != 1:
+        raise AnalysisError("compute_invariant_masses: expected one store (a subscript assignment in a loop or one dict comprehension)")
     from ..canon import canon, local_names
 
     locs = local_names(cm.node)
     mapping: dict = {}
-    key = canon(inl.expr(st.targets[0].slice), locs, mapping).replace(" ", "")
-    val = canon(inl.expr(st.value), locs, mapping).replace(" ", "")
+    if stores:
+        st = stores[0]
+        key_e, val_e = st.targets[0].slice, st.value
+        loop = next((a for a in ancestors(st) if isinstance(a, ast.For)), None)
+        loop_iter, loop_target, filtered = (loop.iter, loop.target, any(isinstance(a, ast.If) for a in ancestors(st))) if loop is not None else (None, None, False)
+    else:
+        st = comps[0]
+        key_e, val_e = st.key, st.value
+        gen = st.generators[0]
+        loop_iter, loop_target, filtered = gen.iter, gen.target, bool(gen.ifs) or len(st.generators) != 1
+    key = canon(inl.expr(key_e), locs, mapping).replace(" ", "")
+    val = canon(inl.expr(val_e), locs, mapping).replace(" ", "")
     ok = val == "InvariantMass(ArraySum(*[four_momenta[_1]for_1indetermine_attached_final_state(topology,_0)]))" and key == "get_invariant_mass_symbol(topology,_0)"
     ctx.verdict(ok, "R-TERM", f"{cm.qual}::store", tree.loc(st),
                 "compute_invariant_masses: m_<ids of state> := InvariantMass(sum of the momenta of exactly those ids), for every edge of the topology",
                 None if ok else {"key": key[:120], "value": val[:160]})
-    loop = next((n for n in walk_function(cm.node) if isinstance(n, ast.For)), None)
-    ok = loop is not None and unparse(loop.iter) == "topology.edges"
-    ctx.verdict(ok, "R-TERM", f"{cm.qual}::all-edges", tree.loc(loop) if loop is not None else tree.loc(cm.node), "compute_invariant_masses iterates all edges of the topology")
+    ok = loop_iter is not None and unparse(loop_iter) in {"topology.edges", "topology.edges.keys()", "topology.edges.items()"} and not filtered
+    ctx.verdict(ok, "R-TERM", f"{cm.qual}::all-edges", tree.loc(st), "compute_invariant_masses iterates all edges of the topology")
     # attached final state: the id itself for a final state, else the sorted originating final-state ids
     da = tree.func("ampform.helicity.decay::determine_attached_final_state")
     dinl = Inliner(da.node)
